@@ -19,7 +19,7 @@ FUNCTIONS_ENCODED = [
 ]
 BOUNDS = {
     'quick': 'every key of the installed pmutt gas-constant table (enumerated at run time); T and the non-dimensional '
-             'values symbolic reals; elemental clause: molecules of <= 3 explicit atoms + <= 2 added hydrogens over '
+             'values symbolic reals; the same object asked in two symbolic units in sequence; elemental clause: molecules of <= 3 explicit atoms + <= 2 added hydrogens over '
              '{H,C,N,O,Ru,Pt}, <= 2 constituents',
     'thorough': 'same units; elemental clause: <= 4 explicit atoms + <= 3 added hydrogens',
 }
